@@ -163,6 +163,10 @@ func streamOf(c *Case) ([]byte, error) {
 	return b, err
 }
 
+func isLegacyLoad(c *Case) bool {
+	return c.Load != "" && c.Load != "reload" && c.Load != "proto" && c.Load != "fresh"
+}
+
 // scansOK: the stream's trie stores complete keys, so scans are legal.
 func scansOK(c *Case) bool { return c.Opt.complete() || len(c.Keys) == 0 }
 
@@ -269,6 +273,21 @@ func checkC05History(c *Case, s *Stats) error {
 		qs = append(qs, string(e))
 	}
 	inst := emptyTrie(c)
+	if c.Scrib&1 == 1 && !isLegacyLoad(c.Pool[0]) {
+		// the instance starts its life as a BUILT trie (not a loaded one)
+		err := guard("NewSlimTrie", func() error {
+			var e error
+			inst, e = c.Pool[0].build()
+			if e != nil {
+				return viol("build", "NewSlimTrie rejected valid input: %v", e)
+			}
+			return nil
+		})
+		if err != nil {
+			return err
+		}
+		s.class("hist_starts_from_built_trie")
+	}
 	cur := -1 // index of the stream the instance must be equal to; -1 = empty
 	curFailed := false
 	shrunk := false
